@@ -150,7 +150,7 @@ def judgeWrite (t : DataType) (v : Int) (s : Bytes) (obs : String) : Verdict :=
   else .fail "value outside the data type not rejected (or slice changed)"
 
 /-- State: the layout and the block the implementation showed last. -/
-def oracleC20 (st : Option (Layout × Bytes)) (op obs : String) :
+def oracleC20Core (st : Option (Layout × Bytes)) (op obs : String) :
     Option (Layout × Bytes) × Option (String × String) :=
   let w := splitWords op
   match w with
@@ -173,5 +173,14 @@ def oracleC20 (st : Option (Layout × Bytes)) (op obs : String) :
         (some (L, blk'), verdictOut (judgeCall L blk c o))
       | none => (st, some ("C20", "unreadable observation"))
     | _, _ => (st, none)
+
+/-- The known-finding class K2 is reported for its first 20 instances only, so that the generic
+oracle loop's cap on printed failures can never hide a `C20` failure behind K2 lines. -/
+def oracleC20 (st : Option (Layout × Bytes) × Nat) (op obs : String) :
+    (Option (Layout × Bytes) × Nat) × Option (String × String) :=
+  let (s', r) := oracleC20Core st.1 op obs
+  match r with
+  | some ("K2", why) => if st.2 < 20 then ((s', st.2 + 1), some ("K2", why)) else ((s', st.2), none)
+  | r => ((s', st.2), r)
 
 end PV.Driver
